@@ -103,7 +103,7 @@ theorem OnlineIface.tickPhase (I : OnlineIface P core cfg S) (hc : cfg.Ok) {now0
     ∃ (c1 : P.Conn) (o2 : Online) (s2 : Timeout) (d1 d2 : List Dg),
       P.call (now0 + resendUs) [] (I.mkc t o s) .tick = .ok { conn := c1, sent := d1.map (I.pkt t) } ∧
       P.call (now0 + resendUs + sendUs) [] c1 .tick = .ok { conn := I.mkc t o2 s2, sent := d2.map (I.pkt t) } ∧
-      PhaseSpec cfg o o2 ((d1 ++ d2).map Dg.fl) := by
+      PhaseSpec cfg o o2 ((d1 ++ d2).map Dg.fl) ∧ d2 ≠ [] := by
   have hsend1 : s.triggered (now0 + resendUs) = true := by
     apply hs.triggered
     rw [sendUs_val, resendUs_val]; omega
@@ -122,7 +122,8 @@ theorem OnlineIface.tickPhase (I : OnlineIface P core cfg S) (hc : cfg.Ok) {now0
     by_cases hcs : o.canSend = true
     · have h1 := I.tick_flush (now0 + resendUs) t o s hd1 hsend1 hcs (Online.flush_valid hinv)
       refine ⟨I.mkc t o.flush.1 (Timeout.after (now0 + resendUs) sendUs), o.flush.1,
-        Timeout.after (now0 + resendUs + sendUs) sendUs, o.flush.2.map Dg.chunk, [Dg.ka o.flush.1.ack], ?_, ?_, ?_⟩
+        Timeout.after (now0 + resendUs + sendUs) sendUs, o.flush.2.map Dg.chunk, [Dg.ka o.flush.1.ack], ?_, ?_, ?_,
+        by simp⟩
       · rw [h1]; simp [List.map_map, Function.comp_def, OnlineIface.pkt]
       · rw [h2]; simp [OnlineIface.pkt]
       · have := PhaseSpec.of_flush_kas hinv hemp [⟨o.ack, false, 0, []⟩] (by simp) (by simp)
@@ -132,7 +133,7 @@ theorem OnlineIface.tickPhase (I : OnlineIface P core cfg S) (hc : cfg.Ok) {now0
       have h1 := I.tick_ka (now0 + resendUs) t o s hd1 hsend1 hcs' hack
       rw [hf1] at h2
       refine ⟨I.mkc t o (Timeout.after (now0 + resendUs) sendUs), o,
-        Timeout.after (now0 + resendUs + sendUs) sendUs, [Dg.ka o.ack], [Dg.ka o.ack], ?_, ?_, ?_⟩
+        Timeout.after (now0 + resendUs + sendUs) sendUs, [Dg.ka o.ack], [Dg.ka o.ack], ?_, ?_, ?_, by simp⟩
       · rw [h1]; simp [OnlineIface.pkt]
       · rw [h2]; simp [OnlineIface.pkt]
       · have := PhaseSpec.of_flush_kas hinv hemp [⟨o.ack, false, 0, []⟩, ⟨o.ack, false, 0, []⟩] (by simp) (by simp)
@@ -170,7 +171,7 @@ theorem OnlineIface.tickPhase (I : OnlineIface P core cfg S) (hc : cfg.Ok) {now0
       · rw [h]; simp [Timeout.after, Timeout.triggered]
     have h2 := I.tick_flush (now0 + resendUs + sendUs) t o1 s1 hd2 hsend2 hcs (Online.flush_valid hinv1)
     refine ⟨I.mkc t o1 s1, o1.flush.1, Timeout.after (now0 + resendUs + sendUs) sendUs, fl.map Dg.chunk,
-      o1.flush.2.map Dg.chunk, ?_, ?_, ?_⟩
+      o1.flush.2.map Dg.chunk, ?_, ?_, ?_, by rw [flush_emits o1 hcs]; simp⟩
     · rw [h1]; simp [List.map_map, Function.comp_def, OnlineIface.pkt]
     · rw [h2]; simp [List.map_map, Function.comp_def, OnlineIface.pkt]
     · simpa [List.map_map, Function.comp_def, Dg.fl] using hps
@@ -410,8 +411,8 @@ theorem timedRound_spec (I : OnlineIface P core cfg S) (hc : cfg.Ok) (hs : Sim P
   have htb := h.tinv.2; rw [hb] at htb
   obtain ⟨hsa, hqa⟩ := I.timed_mk _ _ _ _ hta
   obtain ⟨hsb, hqb⟩ := I.timed_mk _ _ _ _ htb
-  obtain ⟨ca1, oa2, sa2, da1, da2, ea1, ea2, hpsa⟩ := I.tickPhase hc (t := ta) hinva hacka hsa hqa
-  obtain ⟨cb1, ob2, sb2, db1, db2, eb1, eb2, hpsb⟩ := I.tickPhase hc (t := tb) hinvb hackb hsb hqb
+  obtain ⟨ca1, oa2, sa2, da1, da2, ea1, ea2, hpsa, _⟩ := I.tickPhase hc (t := ta) hinva hacka hsa hqa
+  obtain ⟨cb1, ob2, sb2, db1, db2, eb1, eb2, hpsb, _⟩ := I.tickPhase hc (t := tb) hinvb hackb hsb hqb
   rw [← ha] at ea1
   rw [← hb] at eb1
   have hrun := run_tickMoves w ca1 cb1 (I.mkc ta oa2 sa2) (I.mkc tb ob2 sb2) _ _ _ _ ea1 eb1 ea2 eb2
